@@ -1,3 +1,4 @@
 -- family misc: C45 C46 C47 C48 C49.  Everything listed here must build: it is part of `lake build`.
 import Thanos.Driver.Misc
 import Thanos.Props.C45
+import Thanos.Props.C49
